@@ -387,7 +387,8 @@ class Engine:
     return V(self.dom.self_param(func, cls), obj=Obj(cls, 'self'),
              ty='instance')
 
-  def run(self, func, args=None, kwargs=None, state=None, self_v=None):
+  def run(self, func, args=None, kwargs=None, state=None, self_v=None,
+          facts=None):
     """Analyse `func` as an entry point.  Returns Flow."""
     st = state if state is not None else State({}, self.dom.aux_init())
     params = func.params()
@@ -412,6 +413,8 @@ class Engine:
       argvals[a.vararg.arg] = V(self.dom.top())
     if a.kwarg:
       argvals[a.kwarg.arg] = args.get(a.kwarg.arg, V(self.dom.top(), kv={}))
+    if facts:
+      argvals.update(facts)
     return self._run_body(func, argvals, st)
 
   def _run_body(self, func, argvals, st, closure_env=None):
